@@ -175,6 +175,21 @@ impl CommandParser {
                     return true;
                 }
 
+                // Request is a common name as well: tauri::ipc::Request always carries its lifetime
+                // (`Request<'_>`, `ipc::Request<'a>`), a user type called Request normally does not
+                if type_ident == "Request" {
+                    if let syn::PathArguments::AngleBracketed(args) = &last_segment.arguments {
+                        if !args.args.is_empty()
+                            && args
+                                .args
+                                .iter()
+                                .all(|arg| matches!(arg, syn::GenericArgument::Lifetime(_)))
+                        {
+                            return true;
+                        }
+                    }
+                }
+
                 // State and Window are common names, only match if they have generic params
                 // (Tauri's State and Window types always have generics like State<T>, Window<R>)
                 if (type_ident == "State" || type_ident == "Window")
